@@ -20,7 +20,7 @@ macro_rules! enga_prop {
                 scale(tier, $q, $t)
             }
             fn rule() -> &'static str {
-                $rule
+                concat!($rule, ". One history in eight is drawn from the same profile with every operation it leaves out switched on at a low weight (discard_freelist, set_minimum_segment_size, increase_discarded, rewind, clear, truncate, flush, arena clone / drop, detach, explicit dealloc, and for file-backed cases close + reopen in the four modes): the interpreter keeps every operation's contract, so the same predicates apply")
             }
             fn assumptions() -> Vec<&'static str> {
                 $assume
@@ -65,10 +65,10 @@ enga_prop!(C04A, "C04", profiles = BOTH_PROFILES,
     assumptions = { let mut v = COMMON_ASSUME.to_vec(); v.push("out-of-arena reads/writes are visible in the quick tier only through their consequences (crash, corrupted neighbour pattern); the thorough tier adds an AddressSanitizer fuzz target"); v });
 
 enga_prop!(C08A, "C08", profiles = CHECKED,
-    profile = { let mut p = Profile::base(); p.w_bytes = 70; p.w_typed = 10; p.w_aligned = 10; p.w_drop = 45; p.w_fill = 10; p.w_rewind = 5; p.w_clone = 5; p.w_droparena = 3; p.w_discard = 3; p.w_clear = 1; p.w_dealloc = 6; p.w_detach = 6; p.w_reopen = 2; p },
+    profile = { let mut p = Profile::base(); p.caps = BIG_CAPS; p.w_bytes = 70; p.w_typed = 10; p.w_aligned = 10; p.w_drop = 45; p.w_fill = 10; p.w_rewind = 5; p.w_clone = 5; p.w_droparena = 3; p.w_discard = 3; p.w_clear = 1; p.w_dealloc = 6; p.w_detach = 6; p.w_reopen = 2; p },
     mode = Mode { dirty: true, ..Mode::default() },
     nontrivial = |c| c.contains("zeroed-dirty"),
-    rule = "Engine A histories in which every owner fills its whole range with non-zero bytes right after allocation; releases via drop on top, drop not on top, explicit dealloc; rewind, discard_freelist, clear, file reopen; at the return of every alloc_bytes/alloc_bytes_owned every byte of the returned range is zero. Non-trivial = the returned range intersects bytes an earlier owner had set non-zero",
+    rule = "Engine A histories in which every owner fills its whole range with non-zero bytes right after allocation; releases via drop on top, drop not on top, explicit dealloc; rewind, discard_freelist, clear, file reopen; at the return of every alloc_bytes/alloc_bytes_owned every byte of the returned range is zero; one configuration in sixteen is a large arena (70 000 - 300 000 bytes, so that buffers of tens of pages are released and re-issued - page-granular shortcuts only exist there). Non-trivial = the returned range intersects bytes an earlier owner had set non-zero",
     quick = 320_000, thorough = 10_000_000,
     assumptions = COMMON_ASSUME.to_vec());
 
